@@ -343,7 +343,7 @@ func emitDavLocal(o *Out, r *RNG) {
 	dirs := []string{"/"}
 	for k := r.Range(1, 6); k > 0; k-- {
 		parent := dirs[r.Intn(len(dirs))]
-		name := r.Pick([]string{"x", "a b", "é", "q#1", "w?x", "p%41", "s;t", "plus+", "a&b", "quote'", "x<y>", "~t", "日本", ".hidden"}) + fmt.Sprint(k)
+		name := r.Pick([]string{"x", "a b", "é", "q#1", "w?x", "p%41", "s;t", "plus+", "a&b", "quote'", "x<y>", "~t", "日本", ".hidden", "..notes", "...", "..", "a..b", "-", "&amp;"}) + fmt.Sprint(k)
 		if r.Chance(35) {
 			p := parent + name + "/"
 			if os.Mkdir(path.Join(root, p), 0755) != nil {
